@@ -12,6 +12,7 @@ Replies(rt) ==
 Others(rt) ==
     {"ev-custom-bad", "ev-change-bad", "ev-add-bad", "timeout", "timeout-neg", "ev-custom", "ev-reserved", "ev-malformed", "ev-change", "ev-change-empty", "ev-add", "ev-add-neg", "ev-remove",
      "ev-remove-neg", "ev-create", "ev-delete", "ev-reaccess", "ev-reset", "panic-res", "panic-err", "panic-str", "panic-int"}
+    \cup {"try-ev-custom", "try-ev-change", "try-ev-add", "try-ev-create", "try-panic-str"}
     \cup (IF rt \in {"access", "call", "auth"} THEN {"status", "header", "status-redirect", "header-location"} ELSE {})
     \cup (IF rt = "auth" THEN {"tokenevent"} ELSE {})
     \cup (IF rt # "get" THEN {"value"} ELSE {})
@@ -22,11 +23,13 @@ Aps == { [change |-> "absent", add |-> "absent", remove |-> "absent", create |->
          [change |-> "fail", add |-> "fail", remove |-> "fail", create |-> "fail", delete |-> "fail"],
          [change |-> "noop", add |-> "ok", remove |-> "ok", create |-> "ok", delete |-> "ok"] }
 Scenarios ==
+  LET All ==
     { [rtype |-> (IF k = "new" THEN "call" ELSE k), method |-> (IF k = "new" THEN "new" ELSE IF k \in {"call", "auth"} THEN "m" ELSE ""),
        matched |-> mt, payload |-> pl, http |-> h, hasAccess |-> hc, hasGet |-> hc, hasNew |-> (k = "new" /\ hc),
-       calls |-> (IF hc THEN {"m"} ELSE {"*"}), auths |-> (IF hc THEN {"m"} ELSE {}), rt |-> rt, ap |-> ap, nl |-> nl, script |-> <<>>, kind |-> k, pubfail |-> pf]
+       calls |-> (IF hc THEN {"m"} ELSE {"*"}), auths |-> (IF hc THEN {"m"} ELSE {}), rt |-> rt, ap |-> ap, nl |-> nl, script |-> <<>>, kind |-> k, pubfail |-> pf, lpanic |-> lp]
       : k \in {"access", "get", "call", "auth", "new"}, mt \in BOOLEAN, pl \in {"empty", "valid", "malformed"}, h \in BOOLEAN,
-        hc \in BOOLEAN, rt \in {"model", "collection", "unset"}, ap \in Aps, nl \in {0, 2}, pf \in BOOLEAN }
+        hc \in BOOLEAN, rt \in {"model", "collection", "unset"}, ap \in Aps, nl \in {0, 2}, pf \in BOOLEAN, lp \in {0, 1} }
+  IN {s \in All : s.nl = 0 => s.lpanic = 0}
 
 VARIABLE sc
 Init == sc \in Scenarios
@@ -44,6 +47,10 @@ C08_EventOrder == EventOrder(sc, O)
 C08_ProgramOrder == ProgramOrder(O)
 C05_Dispatch == (O.inv = "none") <=> (~sc.matched \/ sc.payload = "malformed" \/ Invoked(sc) = "none")
 \* nothing is published for a failed or no-op apply, nor for an invalid event call
+\* a listener's panic, recovered by the handler, does not silence the listeners of later events
+C08_ListenersSurviveRecovery ==
+    \A i \in 1..Len(O.log) : (O.log[i][1] = "pub" /\ sc.nl > 0 /\ ~sc.pubfail) =>
+        \E j \in 1..Len(O.log) : O.log[j][1] = "listen" /\ O.log[j][3] = O.log[i][3] /\ O.log[j][4] = 1
 C08_NoPublishOnFailure ==
     \A i \in 1..Len(O.log) : O.log[i][1] = "apply" =>
         LET ev == O.log[i][2] k == O.log[i][3] IN
